@@ -204,6 +204,9 @@ def make_case(rng, i, tier):
         # (`d dg`: pressing d of the followup {d g} activates the standalone d again)
         overlap = overlap or any(p2[0] <= path[i] for i in range(1, len(path)) for p2, _ in entries) \
             or any(path[j] <= path[i] for i in range(1, len(path)) for j in range(i))
+        # ... and a standalone chord that contains the head of a chain together with the keys of one of its follow-ups (`ad`, `ad de`,
+        # `ade`): while it is being typed the head activates and then the follow-up, which wins over the longer standalone chord
+        overlap = overlap or (len(path) == 1 and any(len(p2) > 1 and p2[0] < path[0] and p2[1] <= path[0] for p2, _ in entries))
         # a standalone chord that strictly contains the output-less head of some chain, with smart space on: the keys typed for the
         # head are erased together with the space that was added automatically after the previous expansion
         with_output = {tuple(p2) for p2, _ in entries}
